@@ -289,7 +289,7 @@ def gen_axial(rng, nsurf=None, mirrors_p=0.0, conic_p=0.3, asphere_p=0.0, finite
         img = surfaces[-1]
         if img['medium'] == 'mirror_pre':
             # medium before the mirror continues: find it
-            prev = 'air'
+            prev = obj_n          # all-mirror system: the image lies in the object-space medium
             for s in surfaces[:-1]:
                 if s['medium'] != 'mirror':
                     prev = s['medium']
